@@ -329,6 +329,20 @@ struct Reference {
     /// frequencies written to an entry since it was last created (classifies the SQLite finding)
     written: BTreeMap<(Vec<u16>, String), Vec<u32>>,
     last_update_freq: BTreeMap<(Vec<u16>, String), u32>,
+    /// every entry the mutable dictionary ever held (initial file, adds, updates): classifies the prefix-lookup finding
+    persisted: BTreeSet<(Vec<u16>, String)>,
+}
+
+/// Syllable::starts_with over the u16 codes
+fn code_starts_with(a: u16, b: u16) -> bool {
+    let tz = b.trailing_zeros();
+    let mask = if tz >= 9 { 9 } else if tz >= 7 { 7 } else if tz >= 3 { 3 } else { 0 };
+    (a >> mask) == (b >> mask)
+}
+
+/// the key matches the query syllable by syllable (same length)
+fn key_matches(key: &[u16], query: &[u16]) -> bool {
+    key.len() == query.len() && key.iter().zip(query.iter()).all(|(a, b)| *a != 0 && code_starts_with(*a, *b))
 }
 
 impl Reference {
@@ -339,6 +353,7 @@ impl Reference {
             sys: vec![],
             written: BTreeMap::new(),
             last_update_freq: BTreeMap::new(),
+            persisted: BTreeSet::new(),
         };
         let mut names: Vec<String> = case.init.iter().map(|e| e.0.clone()).filter(|n| n != "u").collect();
         names.sort();
@@ -358,6 +373,7 @@ impl Reference {
         if case.backend == "file" || case.backend == "layeredfile" {
             for e in case.init.iter().filter(|e| e.0 == "u") {
                 r.map.insert((e.1.clone(), e.2.clone()), e.3);
+                r.persisted.insert((e.1.clone(), e.2.clone()));
             }
         }
         r
@@ -426,8 +442,22 @@ impl Runner {
             self.fail("lookup-not-deterministic", i, format!("n={}", n));
         }
         if fuzzy {
-            return; // the map reading of the property is about exact keys (a fuzzy Trie lookup may
-                    // legitimately return the same phrase from two different readings)
+            // the map reading of the property is about exact keys (a fuzzy Trie lookup may legitimately return the same
+            // phrase from two different readings); what a prefix lookup must not do is return a phrase that is not live
+            // under ANY key the query matches - "a removed phrase stays absent"
+            if !self.rf.backend.starts_with("sqlite") {
+                for p in &all {
+                    let live = self.rf.map.keys().any(|kk| kk.1 == p.as_str() && key_matches(&kk.0, k))
+                        || self.rf.sys.iter().any(|l| l.iter().any(|e| e.1 == p.as_str() && key_matches(&e.0, k)));
+                    if !live {
+                        let removed = self.rf.persisted.iter().any(|kk| kk.1 == p.as_str() && key_matches(&kk.0, k));
+                        let name = if removed { "prefix-lookup-returns-removed-phrase" } else { "prefix-lookup-returns-unknown-phrase" };
+                        self.fail(name, i, format!("{} returned for the query {} but not live under any matching key", fmt_phrase(p), fmt_key(k)));
+                        break;
+                    }
+                }
+            }
+            return;
         }
         // each phrase once
         let mut seen = BTreeSet::new();
@@ -541,6 +571,7 @@ impl Runner {
                         self.fail("add-existing-accepted", i, format!("{} {}", fmt_key(k), fmt_text(p)));
                     }
                     self.rf.map.insert(key.clone(), *f);
+                    self.rf.persisted.insert(key.clone());
                     self.rf.written.insert(key.clone(), vec![*f]);
                     self.rf.last_update_freq.remove(&key);
                 } else if !r && !self.rf.map.contains_key(&key) {
@@ -564,6 +595,7 @@ impl Runner {
                         self.bump("update_existing");
                     }
                     self.rf.map.insert(key.clone(), *uf);
+                    self.rf.persisted.insert(key.clone());
                     let w = self.rf.written.entry(key.clone()).or_default();
                     w.push(*f);
                     w.push(*uf);
@@ -610,11 +642,13 @@ impl Runner {
             Op::Flush => {
                 self.bump("flush");
                 let r = self.be.dict_mut().map_or(true, |d| d.flush().is_ok());
+
                 self.views.push(if r { "ok" } else { "err" }.to_string());
             }
             Op::Reopen => {
                 self.bump("reopen");
                 let r = reopen_waiting(&mut self.be);
+
                 self.views.push(if r { "ok" } else { "err" }.to_string());
             }
         }
